@@ -67,6 +67,13 @@ def generate(G):
          unwind=14, tier="quick", heavy=True,
          skeleton={"x": [2, 1, 2], "role": "additive term of [2,2,1] x [2,1,2] -> [2,2,2]", "class": "batch dimension + unit row dimension"},
          domains="matrices D2 (untracked), additive term and seed D4")
+    # a matmul operand of rank 3 broadcast against a rank-4 partner (only along the dimension it lacks)
+    G.ob("c03_matmul_right_rank3", "C03", "matmul_operand",
+         "grad::grad(s, &programs::Matmul { at: false, bt: false, c: false }, %s, Seed::Explicit(Dom::D4), false)" % G.leaves(
+             [G.leaf([2, 2, 1, 2], "D2", tracked=False), G.leaf([2, 2, 1], "D4")]),
+         unwind=14, tier="quick", heavy=True,
+         skeleton={"x": [2, 2, 1], "role": "right operand of [2,2,1,2] x [2,2,1] -> [2,2,1,1]", "class": "rank-3 operand under a rank-4 partner"},
+         domains="left matrix D2 (untracked), right operand and seed D4")
     for xd, yd, cls, tier in [([2], [2, 2], "lower-rank", "quick"), ([1, 2], [2, 2], "leading-unit", "quick"),
                               ([3], [2, 3], "lower-rank", "thorough"), ([1, 3], [2, 3], "leading-unit", "thorough"),
                               ([2, 1], [2, 3], "trailing-unit", "thorough"), ([1, 2], [2, 2, 2], "rank2-leading-unit-in-rank3", "thorough")]:
